@@ -147,6 +147,55 @@ fn p_grp_partial() {
 }
 #[kani::proof]
 #[kani::unwind(14)]
+fn p_grp_cast_variants() {
+    // the results of casts are structures of their own: cast! keeps the group's words; into!
+    // (the "final" variant) holds the mandatory pointers in name order, then ONLY the requested
+    // optional pointers in name order, then the container
+    let x: u64 = kani::any();
+    let b = CBox::from(Imp { v: x });
+    let wb = words(&b);
+    let g: GrpBaseBox<Imp> = From::from(b);
+    let wg = grp_words(&g);
+    let tabc = <&TabcVtbl<GC<Imp>>>::default() as *const _ as usize;
+    let tzed = <&TzedVtbl<GC<Imp>>>::default() as *const _ as usize;
+    let tbop = <&TbopVtbl<GC<Imp>>>::default() as *const _ as usize;
+    let tyop = <&TyopVtbl<GC<Imp>>>::default() as *const _ as usize;
+    let which: u8 = kani::any();
+    kani::assume(which < 4);
+    match which {
+        0 => {
+            let c = cglue_macro::cast!(g impl Tbop).unwrap();
+            assert!(core::mem::size_of_val(&c) == 6 * W && same(words(&c), wg), "C04 a cast keeps the group's layout and words");
+            core::mem::forget(c);
+        }
+        1 => {
+            let f = cglue_macro::into!(g impl Tbop).unwrap();
+            let w = words(&f);
+            assert!(core::mem::size_of_val(&f) == 5 * W, "C04 final variant = mandatory + requested optional pointers + container");
+            assert!(w[0] == tabc && w[1] == tzed, "C04 final variant: mandatory pointers first, in name order");
+            assert!(w[2] == tbop, "C04 final variant: then the requested optional pointer");
+            assert!(w[3] == wb[0] && w[4] == wb[1], "C04 final variant: then the container");
+            core::mem::forget(f);
+        }
+        2 => {
+            let f = cglue_macro::into!(g impl Tyop).unwrap();
+            let w = words(&f);
+            assert!(w[0] == tabc && w[1] == tzed && w[2] == tyop && w[3] == wb[0] && w[4] == wb[1], "C04 final variant: mandatory (name order), requested optional, container");
+            core::mem::forget(f);
+        }
+        _ => {
+            let f = cglue_macro::into!(g impl Tyop + Tbop).unwrap();
+            let w = words(&f);
+            assert!(core::mem::size_of_val(&f) == 6 * W, "C04 final variant with both optional traits");
+            assert!(w[0] == tabc && w[1] == tzed && w[2] == tbop && w[3] == tyop && w[4] == wb[0] && w[5] == wb[1], "C04 final variant: mandatory in name order, optional in name order (whatever the request order), container");
+            core::mem::forget(f);
+        }
+    }
+    kani::cover!(which == 1, "into one");
+    kani::cover!(which == 3, "into both");
+}
+#[kani::proof]
+#[kani::unwind(14)]
 fn p_obj_ret_tmp_last() {
     // container = instance, context, THEN temporary storage -- for single-trait objects and for groups alike
     let x: u64 = kani::any();
